@@ -186,7 +186,13 @@ XDoc(r, op, ch) ==
          IF op.k \in 1..Len(v.items)
          THEN [r EXCEPT !.v.items = DropAt(v.items, op.k), !.rq = {q \in r.rq : q.tok # v.items[op.k].tok}]
          ELSE r
-    [] op.op \in {"AddFootnote", "AddFootnoteToRun"} -> [r EXCEPT !.v.fn = Append(v.fn, [id |-> ch.id, text |-> op.text])]
+    [] op.op = "AddFootnote" -> [r EXCEPT !.v.fn = Append(v.fn, [id |-> ch.id, text |-> op.text])]
+    [] op.op = "AddFootnoteToRun" ->
+         \* the reference marker "[id]" is appended to the run: a run of a heading changes the heading's text
+         IF op.run = "heading" /\ v.heads # <<>>
+         THEN [r EXCEPT !.v.fn = Append(v.fn, [id |-> ch.id, text |-> op.text]),
+                        !.v.heads = PutAt(v.heads, 1, [v.heads[1] EXCEPT !.text = @ \o "[" \o ch.id \o "]"])]
+         ELSE [r EXCEPT !.v.fn = Append(v.fn, [id |-> ch.id, text |-> op.text])]
     [] op.op = "AddEndnote" -> [r EXCEPT !.v.en = Append(v.en, [id |-> ch.id, text |-> op.text])]
     [] op.op = "RemoveFootnote" ->
          IF PosOfId(v.fn, ch.id) # 0
